@@ -1,9 +1,122 @@
+/-
+  Oracle.C16 — numeric for.  Input lines (from harness/cmd/c16):
+      <mode> <a> <b> <c> = <status> <values>
+  where a b c are protocol values (`s<hex>~<enc>` = a string and the number golua's
+  tonumber gives for it, `-` = step omitted).  Output, one line per input line:
+      <model outcome>;<spec outcome>|<tolerated alternative>|…;<kind>:<flags>
+  outcome = `E` | `ok v,v,…` | `cap v,v,…` (cap = still running after CAP iterations).
+  Model outcome = Model.For.run (level B), spec = Spec.For.run (level A).
+  Also: `fadd <x> <y>` → the model's float sum (self-test against the hardware).
+-/
 import Oracle.Proto
+import GoluaVerif.Spec.For
+import GoluaVerif.Model.For
 namespace Oracle.C16
+open GoluaVerif GoluaVerif.Spec Oracle
+open GoluaVerif.Spec.For (Val Outcome)
 
-/-- placeholder: the oracle driver for C16 is not built yet -/
+def cap : Nat := 40
+
+def numOfV : V → Option Num
+  | .int n => some (.int n)
+  | .flt b => some (.flt (F64.ofBits b))
+  | _ => none
+
+def parseVal (s : String) : Option Val :=
+  if s == "-" then some (.num (.int 1#64)) else
+  match s.splitOn "~" with
+  | [x] => match V.parse x with
+    | some (.str _) => none            -- a string must carry its conversion
+    | some v => match numOfV v with
+      | some n => some (.num n)
+      | none => some .other
+    | none => none
+  | [x, c] => match V.parse x, V.parse c with
+    | some (.str _), some cv => some (.str (numOfV cv))
+    | _, _ => none
+  | _ => none
+
+def showNum : Num → String
+  | .int n => (V.int n).show
+  | .flt f => (V.flt (F64.toBits f)).show
+
+def showOutcome : Outcome → String
+  | .error => "E"
+  | .values vs =>
+    let shown := vs.take cap
+    let body := if shown.isEmpty then "-" else ",".intercalate (shown.map showNum)
+    (if vs.length > cap then "cap " else "ok ") ++ body
+
+def dedup (xs : List String) : List String :=
+  xs.foldl (fun acc x => if acc.contains x then acc else acc ++ [x]) []
+
+/-- the float-loop alternative after lvm.c (skip test, then continue test), with the limit converted or not -/
+def runRef (convLimit : Bool) (a l d : Val) : Outcome :=
+  match a.toNum?, l.toNum?, d.toNum? with
+  | some a, some l, some d =>
+    match a, d with
+    | .int _, .int _ => For.run false (cap + 1) (.num a) (.num l) (.num d)
+    | _, _ =>
+      let fs := For.toFlt a
+      let fd := For.toFlt d
+      if fd.isZero then .error
+      else .values (For.floatValuesRef (cap + 1) fs (if convLimit then .flt (For.toFlt l) else l) fd)
+  | _, _, _ => .error
+
+/-- lvm.c treats a string initial value / step as a float loop ("1" is not an integer value);
+    golua converts by syntax.  The manual does not say: both are tolerated. -/
+def stringsAsFloat : Val → Val
+  | .str (some (.int n)) => .num (.flt (F64.ofI64 n))
+  | v => v
+
+def isNaNVal : Val → Bool
+  | v => match v.toNum? with
+    | some n => n.isNaN
+    | none => false
+
+def isInfVal (neg : Bool) : Val → Bool
+  | v => match v.toNum? with
+    | some (.flt (.inf s)) => s == neg
+    | _ => false
+
+def handle (line : String) : String :=
+  match line.splitOn " " with
+  | "fadd" :: x :: y :: _ =>
+    match V.parse x, V.parse y with
+    | some (.flt a), some (.flt b) => (V.flt (F64.toBits (F64.fadd (F64.ofBits a) (F64.ofBits b)))).show
+    | _, _ => "bad-line"
+  | _mode :: sa :: sl :: sd :: "=" :: _ =>
+    match parseVal sa, parseVal sl, parseVal sd with
+    | some a, some l, some d =>
+      let model := showOutcome (Model.For.run (cap + 1) a l d)
+      let hasStr := match a, d with
+        | .str _, _ => true
+        | _, .str _ => true
+        | _, _ => false
+      let a' := stringsAsFloat a
+      let d' := stringsAsFloat d
+      let alts := [showOutcome (For.run false (cap + 1) a l d), showOutcome (For.run true (cap + 1) a l d),
+                   showOutcome (runRef false a l d), showOutcome (runRef true a l d)]
+        ++ (if hasStr then [showOutcome (For.run false (cap + 1) a' l d'), showOutcome (For.run true (cap + 1) a' l d'),
+                            showOutcome (runRef true a' l d')] else [])
+      let kind := match a.toNum?, l.toNum?, d.toNum? with
+        | some (.int _), some _, some (.int _) => "int"
+        | some _, some _, some _ => "float"
+        | _, _, _ => "err"
+      let flags :=
+        (if isNaNVal l then ["nan:limit"] else []) ++
+        (if isNaNVal a then ["nan:start"] else []) ++
+        (if isNaNVal d then ["nan:step"] else []) ++
+        (if kind == "float" && ((isInfVal true a && isInfVal false d) || (isInfVal false a && isInfVal true d))
+         then ["nan:arise"] else [])
+      model ++ ";" ++ "|".intercalate (dedup alts) ++ ";" ++ kind ++ ":" ++ ",".intercalate flags
+    | _, _, _ => "bad-line"
+  | _ => "bad-line"
+
 def main (_args : List String) : IO UInt32 := do
-  IO.eprintln "oracle mode c16: not built"
-  return 2
+  let stdin ← IO.getStdin
+  let stdout ← IO.getStdout
+  forEachLine stdin fun line => stdout.putStrLn (handle line)
+  return 0
 
 end Oracle.C16
